@@ -259,7 +259,7 @@ var errorFormat = map[Code]string{
 	ErrUnacceptableRecursionInAllOfRule: "The unacceptable recursion in the `allOf` rule",
 	ErrUnacceptableUserTypeInAllOfRule:  `Unacceptable type. The "%s" type in the "allOf" rule must be an object`,
 	ErrConflictAdditionalProperties:     `Conflicting value in additionalProperties rules when inheriting from allOf`,
-	ErrLoadError:                        "load error: %w",
+	ErrLoadError:                        "load error: %v",
 
 	// rule loader
 	ErrLoader:                           "Loader error", // error somewhere in the loader code
